@@ -227,6 +227,17 @@ impl<N, const NS: usize, const NE: usize> InteractionModelState<N, NS, NE> {
         })
     }
 
+    /// The re-hydration step of [`InteractionModel::startup`], callable without a full
+    /// `InteractionModel` (verification harness).
+    #[cfg(feature = "verif")]
+    pub fn verif_load_persist<K>(&self, kv: K) -> Result<(), Error>
+    where
+        K: KvBlobStoreAccess,
+        N: Networks,
+    {
+        self.load_persist(kv)
+    }
+
     /// The subscriptions table.
     pub const fn subscriptions(&self) -> &Subscriptions<NS> {
         &self.subscriptions
